@@ -35,7 +35,7 @@ ANCHORS = [
 FLOOR_TAGS = ["recv:fresh", "recv:lazyrows", "recv:lazycols+2", "recv:lazycols-1", "recv:lazychain", "recv:ufunc", "recv:astype", "mask-as-list", "r:int", "r:slice+1", "r:slice+k", "r:slice-", "r:list", "r:array", "r:mask", "r:ell",
               "c:none", "c:int+", "c:int-", "c:slice+1", "c:slice+k", "c:slice-",
               "must-refuse", "sel-has-empty-row", "e-first", "e-last", "e-mid", "e-consec", "allempty", "norows"]
-FLOOR_MONITORS = ["c02:model-compare", "c02:refusal", "inv:ragged"]
+FLOOR_MONITORS = ["c02:model-compare", "c02:refusal"]
 N_RANDOM = {"quick": 12000, "thorough": 400000}
 
 
